@@ -17,6 +17,8 @@ import (
 	"strings"
 	"time"
 
+	gogit "github.com/go-git/go-git/v5"
+
 	"github.com/MichaelMure/git-bug/cache"
 	"github.com/MichaelMure/git-bug/entities/bug"
 	"github.com/MichaelMure/git-bug/entities/identity"
@@ -38,7 +40,11 @@ type Params struct {
 	NoUser  bool   `json:"nouser"`  // A never selected an identity (wipe runs only)
 	Wipe    bool   `json:"wipe"`    // run `git-bug wipe` (with and without a bridge configured) on a copy of every state
 	Bin     string `json:"bin"`     // the real git-bug binary
-	HangSec int    `json:"hang_s"`
+	// LateRemote: a second remote R2 (a bare copy of R1, which holds everything A has) exists from
+	// the start but is configured on A only by the environment action `addremote`, from outside
+	// the session's repository handle (stock `git remote add`); small alphabet
+	LateRemote bool `json:"late_remote"`
+	HangSec    int  `json:"hang_s"`
 }
 
 func (p Params) String() string { b, _ := json.Marshal(p); return string(b) }
@@ -60,6 +66,9 @@ type model struct {
 	applied []string
 	hung    string
 	routes  []string // routes used so far
+
+	added       bool // R2 was configured (late-remote runs)
+	seenRemotes int  // number of configured remotes when the current repository handle was first asked for them by a removal; -1: not yet
 }
 
 // New is the xstate factory.
@@ -75,7 +84,7 @@ func New(params string) (xstate.Model, error) {
 	if p.HangSec == 0 {
 		p.HangSec = 60
 	}
-	m := &model{p: p}
+	m := &model{p: p, seenRemotes: -1}
 	for i := 1; i <= p.Remotes; i++ {
 		m.remotes = append(m.remotes, fmt.Sprintf("R%d", i))
 	}
@@ -124,7 +133,11 @@ func (m *model) Init(dir string) error {
 	if err := json.Unmarshal(meta, &im); err != nil {
 		return err
 	}
-	w, err := world.Open(dir, m.replicas(), m.remotes, loaders)
+	openRemotes := m.remotes
+	if m.p.LateRemote {
+		openRemotes = append(append([]string{}, m.remotes...), lateRemote) // in the state key although not configured yet
+	}
+	w, err := world.Open(dir, m.replicas(), openRemotes, loaders)
 	if err != nil {
 		return err
 	}
@@ -322,7 +335,43 @@ func (m *model) build(dir string) error {
 			return err
 		}
 	}
+	if m.p.LateRemote {
+		// R1 gets everything A has; R2 is a bare copy of it that A does not know of yet
+		if len(m.remotes) == 0 {
+			return fmt.Errorf("late_remote needs a first remote")
+		}
+		vctl.SetActor("setup/A")
+		if _, err := identity.Push(repoA, first); err != nil {
+			return err
+		}
+		if _, err := bug.Push(repoA, first); err != nil {
+			return err
+		}
+		if err := world.CopyTree(filepath.Join(dir, first), filepath.Join(dir, lateRemote)); err != nil {
+			return err
+		}
+	}
 	return m.finishBuild()
+}
+
+const lateRemote = "R2"
+
+// configuredRemotes reads the remotes of A from the git config through a handle of its own
+// (never through the session's repository handle).
+func (m *model) configuredRemotes() (map[string]bool, error) {
+	r, err := gogit.PlainOpen(filepath.Join(m.dir, "A"))
+	if err != nil {
+		return nil, err
+	}
+	cfg, err := r.Config()
+	if err != nil {
+		return nil, err
+	}
+	out := map[string]bool{}
+	for name := range cfg.Remotes {
+		out[name] = true
+	}
+	return out, nil
 }
 
 func (m *model) finishBuild() error {
@@ -398,6 +447,17 @@ func (m *model) Actions() []string {
 			out = append(out, "fetch("+r+")")
 		}
 		return out
+	}
+	if m.p.LateRemote {
+		// one session handle kept open (rm-cache, never a route that reopens), the environment
+		// configuring R2 behind its back, traffic with R2, reopen as the contrast
+		out = append(out, "rm-cache")
+		if !m.added {
+			out = append(out, "addremote")
+		} else {
+			out = append(out, "push("+lateRemote+")", "fetch("+lateRemote+")", "merge("+lateRemote+")")
+		}
+		return append(out, "reopen")
 	}
 	local, _ := m.targetRefs()
 	rms := []string{"rm-api", "rm-cache"}
@@ -583,10 +643,20 @@ func (m *model) apply(k, arg string) (string, []xstate.Violation, error) {
 			return "nothing-to-merge", nil, nil
 		}
 		return strings.Join(parts, ","), nil, nil
+	case "addremote":
+		// the user's own `git remote add`: the session's repository handle is not involved
+		cmd := exec.Command("git", "remote", "add", lateRemote, world.Scheme+"://"+filepath.Join(m.dir, lateRemote))
+		cmd.Dir = filepath.Join(m.dir, "A")
+		if out, err := cmd.CombinedOutput(); err != nil {
+			return "", nil, fmt.Errorf("git remote add: %v: %s", err, out)
+		}
+		m.added = true
+		return "ok", nil, nil
 	case "reopen":
 		if err := m.closeCache(); err != nil {
 			return "", nil, err
 		}
+		m.seenRemotes = -1
 		return "ok", nil, m.openCache(true)
 	case "rebuild":
 		if err := m.closeCache(); err != nil {
@@ -602,6 +672,12 @@ func (m *model) apply(k, arg string) (string, []xstate.Violation, error) {
 		}
 		return "ok", nil, m.openCache(true)
 	case "rm-api", "rm-cache", "rm-cli":
+		if local, _ := m.targetRefs(); k == "rm-cache" && local && m.seenRemotes < 0 {
+			// hidden state of the handle that survives this action: what it may remember of the remotes
+			if cr, err := m.configuredRemotes(); err == nil {
+				m.seenRemotes = len(cr)
+			}
+		}
 		return m.remove(k)
 	}
 	return "", nil, fmt.Errorf("unknown action %s", k)
@@ -621,5 +697,5 @@ func (m *model) Key() (string, error) {
 	}
 	cfg, _ := os.ReadFile(filepath.Join(m.dir, "A", ".git", "config"))
 	cfg = bytes.ReplaceAll(cfg, []byte(m.dir), []byte("$WORLD")) // remote URLs embed the scratch directory
-	return m.w.Key("view\n"+v.Digest(), fmt.Sprint("removed ", m.removed, " told ", m.told, " edits ", m.nEdit, " selected ", m.selection()), "config\n"+string(cfg))
+	return m.w.Key("view\n"+v.Digest(), fmt.Sprint("removed ", m.removed, " told ", m.told, " edits ", m.nEdit, " selected ", m.selection(), " r2 ", m.added, " handle-saw-remotes ", m.seenRemotes), "config\n"+string(cfg))
 }
